@@ -160,6 +160,12 @@ func genConcPlan(prop string, seed uint64, thorough bool) *Plan {
 			}
 		}
 	}
+	// two bitmap operands that only ever receive string writes (so that BITOP
+	// always has non-empty sources)
+	bitkeys := prop == "C08" && g.chance(3)
+	if bitkeys {
+		pro = append(pro, cmdItem("SET", "b0", "ab"), cmdItem("SET", "b1", "Cd"))
+	}
 	// deterministic order of the prologue
 	sortItems(pro)
 	pro = append(pro, Item{Op: "barrier", N: 1})
@@ -192,6 +198,24 @@ func genConcPlan(prop string, seed uint64, thorough bool) *Plan {
 					items = append(items, cmdItem("EXEC"))
 				}
 			}
+			if bitkeys && g.chance(3) {
+				bk, other := "b0", "b1"
+				if g.chance(2) {
+					bk, other = other, bk
+				}
+				switch g.r.IntN(6) {
+				case 0, 1, 2:
+					// accumulate into one of the operands: a lost update shows
+					items = append(items, cmdItem("BITOP", g.pick("OR", "XOR", "AND"), bk, bk, other))
+				case 3:
+					items = append(items, cmdItem("APPEND", bk, g.pick("x", "Y", "\x01")))
+				case 4:
+					items = append(items, cmdItem("SETRANGE", bk, g.pick("0", "1"), g.pick("q", "\xf0")))
+				default:
+					items = append(items, cmdItem("GET", bk))
+				}
+				continue
+			}
 			if twodb && g.chance(6) {
 				// (COPY ... DB n is answered "database copy not supported" by the
 				// emulator, so FLUSHALL is the only command that takes several
@@ -205,10 +229,14 @@ func genConcPlan(prop string, seed uint64, thorough bool) *Plan {
 		p.Clients = append(p.Clients, Client{Items: items, Depth: 1 + g.r.IntN(2)})
 	}
 	p.Clients[0].Items = append(p.Clients[0].Items, Item{Op: "barrier", N: 2})
+	obsKeys := g.keys
+	if bitkeys {
+		obsKeys = append(append([]string{}, g.keys...), "b0", "b1")
+	}
 	if twodb {
-		p.Clients = append(p.Clients, observation(g.keys, 2, 0, otherDb))
+		p.Clients = append(p.Clients, observation(obsKeys, 2, 0, otherDb))
 	} else {
-		p.Clients = append(p.Clients, observation(g.keys, 2))
+		p.Clients = append(p.Clients, observation(obsKeys, 2))
 	}
 	return p
 }
